@@ -112,6 +112,27 @@ def run(ctx):
             bad(inp, {'first': a1['css'][:1500], 'second': a2}, 'the front end rejects the output of a program of the verified fragment', c['classes'])
         elif a3.get('r') == 'ok' and b3.get('r') == 'ok' and a3['css'] != b3['css']:
             bad(inp, {'via_output': a3['css'][:1500], 'direct': b3['css'][:1500]}, 'compile(o2, compile(o1, s)) != compile(o2, s)', c['classes'])
+    # ---- the model pipeline (text -> CSS inside Coq) on the same programs: byte for byte under o1 (abstains on guards and other constructs outside the fragment)
+    if ctx.get('model_usable', True):
+        from .. import coqrun
+        trows, tmeta = [], []
+        for c, a1 in zip(cases, c1):
+            if a1.get('r') in ('ok', 'error'):
+                term = 'text_case %s %s %s' % (SC.opts_term(c['o1']), coqrun.coq_str(c['text']), coqrun.coq_res(a1))
+                trows.append(('bool', '(fst (%s))' % term, '(snd (%s))' % term)); tmeta.append((c, a1))
+        badr, diag, errs = coqrun.evaluate(trows, ['Model.Ast', 'Model.Fmt', 'Model.Eval', 'Model.Pipeline'], os.path.join(ctx['scratch'], 'pipe%d' % ctx.get('mult', 1)), shard=40, tag='pipe')
+        out['harness_errors'] += errs
+        pabst = 0
+        for k in badr:
+            if diag.get(k, '').startswith('ABSTAIN'):
+                pabst += 1
+                continue
+            c, a1 = tmeta[k]
+            out['model_mismatch'].append({'input': {'text': c['text'], 'opts': c['o1'], 'via': 'text pipeline (Lex + Parse + Eval)'}, 'impl': a1, 'model': diag.get(k, '')[:2000], 'classes': c['classes']})
+        out['evaluations'] += len(trows)
+        pipe_stats = {'cases': len(trows), 'abstains': pabst}
+    else:
+        pipe_stats = None
     i = 0
     for f in corpus:
         for o in copts:
@@ -132,7 +153,7 @@ def run(ctx):
     ex = {}
     for e in excluded:
         ex.setdefault(e['file'], e['why'])
-    out['distribution'] = {'generated': len(cases), 'corpus_files': len(corpus), 'corpus_option_vectors': len(copts),
+    out['distribution'] = {'text_pipeline': pipe_stats, 'generated': len(cases), 'corpus_files': len(corpus), 'corpus_option_vectors': len(copts),
                            'corpus_excluded (as the property says)': ex}
     return out
 
